@@ -184,7 +184,9 @@ func (c *Connection) dispatchInbound(_ uint32, _ uint32, call *InboundCall, fram
 			LogField{"remotePeer", c.remotePeerInfo},
 			ErrField(err),
 		).Error("Couldn't read method.")
-		c.opts.FramePool.Release(frame)
+		// The initial frame may already have been released by the reader (arg1 spanning
+		// more than one fragment); release whichever fragment is still held, once.
+		call.releasePreviousFragment()
 		return
 	}
 
